@@ -672,6 +672,52 @@ func (u *Unit) evalCall(e *SExpr, env *Env) Val {
 			return Val{T: sArr(x.T)}
 		}
 		return Val{T: sOff(x.T)}
+	case "fcall":
+		// fcall(Name, args...): the value a functional callee (trusted, `opt functional`) returns for these
+		// arguments in the current heap; a []byte result is given as Bytes
+		want := e.Args[0].Name
+		var full string
+		var fct *Contract
+		for n, c := range u.W.Contracts {
+			if _, ok := c.Opts["functional"]; ok && (shortCallee(n) == want || strings.HasSuffix(n, want)) {
+				if full == "" || n < full {
+					full, fct = n, c
+				}
+			}
+		}
+		if fct == nil {
+			u.specFail("fcall: no functional contract for %s", want)
+		}
+		var args []Val
+		for _, a := range e.Args[1:] {
+			args = append(args, u.eval(a, env))
+		}
+		rs := "Int"
+		if fn := u.lookupFuncByName(full); fn != nil {
+			if res := fn.Signature.Results(); res.Len() == 1 {
+				rs = u.sortOf(res.At(0).Type())
+				if sl, ok := res.At(0).Type().Underlying().(*types.Slice); ok && u.typeKey(sl.Elem()) == "uint8" {
+					rs = "Bytes"
+				}
+			}
+		}
+		t, ok := u.functionalApp(env.st, full, args, rs)
+		if !ok {
+			u.specFail("fcall: argument cannot be represented")
+		}
+		return Val{T: t}
+	case "sdata":
+		// sdata(s): the backing array of slice s as an SMT array (index = soff(s) + position)
+		x := u.eval(e.Args[0], env)
+		if x.T.Sort != "Slice" || x.Typ == nil {
+			u.specFail("sdata needs a typed slice")
+		}
+		sl, ok := x.Typ.Underlying().(*types.Slice)
+		if !ok {
+			u.specFail("sdata needs a slice")
+		}
+		_, h := u.memHeap(env.st, sl.Elem())
+		return Val{T: sel(h, sArr(x.T))}
 	case "ptr":
 		// ptr(r, pkg.T): the reference r (an Int, e.g. a quantified variable) seen as a *pkg.T
 		x := u.eval(e.Args[0], env)
